@@ -33,6 +33,12 @@ var solvers = []solverSpec{
 	{"cvc5-1.0", func(f string, s int) []string {
 		return []string{"cvc5", fmt.Sprintf("--tlimit=%d", s*1000), "--full-saturate-quant", f}
 	}},
+	{"z3-4.8.12(mbqi=false)", func(f string, s int) []string {
+		return []string{"/usr/bin/z3", fmt.Sprintf("-T:%d", s), "smt.mbqi=false", f}
+	}},
+	{"z3-5.1.0(mbqi=false)", func(f string, s int) []string {
+		return []string{"z3-new", fmt.Sprintf("-T:%d", s), "smt.mbqi=false", f}
+	}},
 }
 
 func runSolver(ctx context.Context, sp solverSpec, file string, secs int) (status, out string, dur float64) {
@@ -90,12 +96,9 @@ func solve(file string, secs int) *SolveResult {
 	}
 	ctx, cancel := context.WithCancel(context.Background())
 	defer cancel()
-	ch := make(chan ans, 3)
+	ch := make(chan ans, 5)
 	var wg sync.WaitGroup
-	race := []solverSpec{solvers[1], solvers[2]}
-	if secs > first {
-		race = append(race, solvers[0])
-	}
+	race := []solverSpec{solvers[1], solvers[2], solvers[3], solvers[4]}
 	for _, sp := range race {
 		wg.Add(1)
 		go func(sp solverSpec) {
@@ -134,8 +137,20 @@ func solveAll(obls []*Obligation, workDir string, secs int, workers int) {
 			defer wg.Done()
 			defer func() { <-sem }()
 			file := filepath.Join(workDir, fmt.Sprintf("%04d_%s.smt2", i, safeName(o.ID)))
-			text := o.ctx.render(o.PC, o.Goal, o.Cover, o.Cands)
 			header := fmt.Sprintf("; obligation %s\n; path %s pos %s\n; %s\n", o.ID, o.Path, o.Pos, strings.ReplaceAll(o.Text, "\n", " "))
+			if !o.Cover {
+				// phase A: hypotheses weakened to their ground instances (sound: fewer assumptions)
+				lite := o.ctx.render(o.PC, o.Goal, false, o.Cands, o.Lens, true)
+				lfile := strings.TrimSuffix(file, ".smt2") + ".lite.smt2"
+				os.WriteFile(lfile, []byte(header+"; phase A: quantified hypotheses replaced by their ground instances\n"+lite), 0o644)
+				st, out, dur := runSolver(context.Background(), solvers[0], lfile, 4)
+				if st == "unsat" {
+					fi, _ := os.Stat(lfile)
+					o.Result = &SolveResult{Status: "unsat", Solver: solvers[0].name + "(ground)", TimeS: dur, Output: out, File: lfile, Bytes: int(fi.Size()), Tried: []string{"ground:unsat"}}
+					return
+				}
+			}
+			text := o.ctx.render(o.PC, o.Goal, o.Cover, o.Cands, o.Lens, false)
 			os.WriteFile(file, []byte(header+text), 0o644)
 			if o.Cover {
 				o.Result = solve(file, 2)
